@@ -3,7 +3,7 @@
 # (1) patch applies, (2) existing suite passes with it, (3) demo fails with it, (4) demo passes without it.
 # Prints one summary line; on success copies the artefacts to /verif/seeded/<ID>-<variant>/.
 ID=$1; V=$2
-SRC=/tmp/seedout/$ID/$V; WT=/tmp/wt/$ID
+SRC=/tmp/seedout/$ID/$V; WT=/tmp/wt/$ID$V; [ -d $WT ] || WT=/tmp/wt/$ID
 export GOFLAGS=-mod=mod GOPROXY=off
 cd $WT || { echo "$ID/$V no-worktree"; exit 2; }
 git checkout -q -- . ; git clean -fdq
